@@ -295,11 +295,17 @@ def run (ctx, repo, mods, type_parser_classes, fallback_classes=()):
       isb = lambda e, want: isinstance(e, ast.Call) and call_name(e) == 'isinstance' and len(e.args) == 2 and norm(e.args[0]) == ap and want in norm(e.args[1])
       ms = [((lambda e: isb(e, 'bytes') and 'str' not in norm(e.args[1])), True), ((lambda e: isb(e, 'str') and 'bytes' not in norm(e.args[1])), False), ((lambda e: isb(e, 'EthAddr')), False)]
       paths = q.paths_under(repo, am, ge, q.Env({ap: sample}, ms), ge.entry, [ge.exit] + [n for n in ge.nodes if n.kind == 'raise_stmt'], ea, limit=40)
-      if len(paths) != 1: unknown += 1; continue
+      is_text = lambda n: any(call_name(c) == 'int' and len(c.args) == 2 for c in q.node_calls(n)) or n.kind == 'raise_stmt'
+      if len(paths) != 1:
+        # several paths: the value got lost on the way (e.g. a conversion the evaluator gave up on).  If every one of them went through
+        # the textual conversion the verdict is the same; otherwise it is not decided
+        if paths and all(any(is_text(n) for n in p_) for p_, e_ in paths): bad_s.append((sample, [n for n in paths[0][0] if is_text(n)][0].text(50)))
+        else: unknown += 1
+        continue
       p_, e_ = paths[0]
-      textual = [n for n in p_ if any(call_name(c) == 'int' and len(c.args) == 2 for c in q.node_calls(n)) or n.kind == 'raise_stmt']
+      textual = [n for n in p_ if is_text(n)]
       if textual or e_.exact.get('self._value', sample) != sample: bad_s.append((sample, textual[0].text(50) if textual else 'value changed'))
-    if unknown:
+    if unknown and not bad_s:
       ctx.undecided('R-DOM', ei, "six raw bytes from a frame are taken as they are", "%d sample(s) not evaluable" % unknown, ei, 'D1')
     else:
       ctx.ob('R-DOM', ei, "six raw bytes from a frame are taken as they are", not bad_s, "5 six-byte samples (colons, dashes, hex digits among them) stored unchanged" if not bad_s else
